@@ -274,6 +274,66 @@ T6 = {
         "probe during the graceful shutdown while an actor is still running", False,
         "C20 slow_stop: a refused connection while run() has not returned is a closed port", ["C20"]),
 }
+T7 = {
+    "C01-r7-amqp-paused-delivery-parked-finish-leaks": (
+        "RabbitMQ: start - pause - a message is pushed to the paused consumer - finish without unpause", False,
+        "C01 pause block: a quarter of the paused consumers are finished while paused instead of being resumed", ["C01"]),
+    "C02-r7-debug-log-extra-name-keyerror": (
+        "host application enabled DEBUG for the 'repid' logger; a failing actor with retries left", False,
+        "host logging level dimension (reset_globals(log=...), case['log']): worker scenarios, broker histories, C16, C17 run a fifth "
+        "of the cases with the 'repid' logger at DEBUG and a formatting handler", ["C02"]),
+    "C03-r7-redis-low-priority-marker-falsy-zero": (
+        "Redis, a LOW-priority message that is handed back (stop / limit) or orphaned", False,
+        "message priorities in every worker scenario (gen.host_dims: LOW / HIGH jobs)", ["C03"]),
+    "C04-r7-redis-delayed-score-assumes-utc": (
+        "Redis and a host time zone other than UTC", False, "C04 cases draw the host dimensions too (gen.host_dims: tz, log, priorities, names). "
+        "(The committed harness printed a violation for this change - on amqp, the settled race listed in DESIGN 12, i.e. a false alarm of the "
+        "harness and not a detection.)", ["C04"]),
+    "C05-r7-redis-due-score-ignores-dst": (
+        "Redis and a host zone that is on daylight-saving time (time.timezone differs from the offset in force)", False,
+        "zones with daylight-saving time in force at EPOCH (vclock.ZONES_DST, drawn where the case stays inside the zone's constant reach); "
+        "the virtual time module's timezone / altzone / daylight now follow tzset(). (The committed harness flagged the change by accident: "
+        "its time module copy still carried the UTC constants under EST5.)", ["C05"]),
+    "C06-r7-amqp-requeue-publish-before-ack": (
+        "RabbitMQ, recurring job with retries, zero back-off, prefetch > 1, delivery ordered before the publisher confirm", False,
+        "C06 judges the number of copies also when the scenario ran into the horizon (the stray unacknowledged copy kept it from settling, "
+        "and the horizon guard then skipped the verdict); tasks_limit 1000 drawn; the RabbitMQ model closes a channel that settles an unknown "
+        "delivery tag (406 PRECONDITION_FAILED) like the real server", ["C06"]),
+    "C07-r7-valid-name-accepts-colon": (
+        "a queue or topic name containing ':' (accepted by the widened validator)", False,
+        "C07 reads the name / id alphabets off the validators of the tree under test (every printable character the regex accepts) instead "
+        "of a hard-coded alphabet; near-miss pairs <queue><sep>delayed / dead; a decoder that raises on an accepted key is a wrong answer", ["C07"]),
+    "C08-r7-basic-required-skips-kwonly": ("BasicConverter, required keyword-only parameter missing from a non-empty payload", True, None, ["C08"]),
+    "C09-r7-amqp-qos-skip-leaves-paused": ("RabbitMQ, tasks_limit=1, the pause path entered once", True,
+                                           "(C09 jobs now also store results and carry priorities)", ["C09"]),
+    "C10-r7-redis-reject-in-front-drops-priority": (
+        "Redis, HIGH / LOW messages prefetched beyond messages_limit and handed back", False, "message priorities in C10 cases (gen.host_dims)", ["C10"]),
+    "C11-r7-include-router-shares-topic-sets": ("one Router object included into several workers", True, None, ["C11"]),
+    "C12-r7-params-timestamp-utc-roundtrip": ("serialising broker and a host time zone other than UTC", True, None, ["C12"]),
+    "C13-r7-result-timestamp-utc-finish": (
+        "host time zone other than UTC (east of UTC by more than the ttl: Job.result is None at once)", True,
+        "(added: the bucket's timestamp must lie between the start of the execution and the completion of the store - catches the "
+        "silent shift west of UTC as well)", ["C13"]),
+    "C14-r7-redis-maintenance-utcnow-timestamp": (
+        "Redis, host west of UTC, maintenance while a live consumer holds a message", False,
+        "host time zone and logging level in C01 / C14 / C15 histories; VDateTime.utcnow() returned host-local time (a fidelity defect of "
+        "the virtual clock: utcnow().timestamp() was right by accident), now the UTC wall clock", ["C14"]),
+    "C15-r7-redis-prefetch-buffer-by-timestamp": (
+        "Redis, >= 2 same-priority messages in the prefetch buffer whose own timestamps are not in enqueue order", False,
+        "C15 enqueues draw a message age (timestamp = now - age): the job object was made earlier than it was enqueued", ["C15"]),
+    "C16-r7-debug-log-bad-placeholder": ("'repid' logger at DEBUG; eager response with callbacks or set_result", False,
+                                         "logging level dimension in C16 handles / programs / dependency-eager", ["C16"]),
+    "C17-r7-logger-exc-text-in-template": ("a subscriber raising an exception whose text contains braces", False,
+                                           "C17 raising subscribers draw their exception text ({}, {0}, {x}, JSON, %s); gen.EXC_TEXT for actors", ["C17"]),
+    "C18-r7-default-valued-dep-param-skipped": ("a provider's dependency parameter that carries a default value", False,
+                                                "C18 providers: dependency parameters with defaults and keyword-only ones", ["C18"]),
+    "C19-r7-redis-bucket-exat-naive-as-utc": ("Redis bucket broker and a host time zone other than UTC", False,
+                                              "C19 store-redis draws the host time zone", ["C19"]),
+    "C20-r7-request-line-regex-backtracking": (
+        "a request target of >= ~28 non-slash characters without a well-formed tail", False,
+        "C20 protocol: long-target inputs (12-5000 characters, complete / truncated / without version) and a CPU-time budget oracle "
+        "(process CPU time, interrupting the computation): data_received computing for seconds blocks the worker's event loop", ["C20"]),
+}
 RETIRED = {"C10-r4-stop-event-at-mth-start", "C03-r6-health-stop-before-graceful-finish"}
 
 
@@ -284,6 +344,7 @@ def main() -> None:
     rows += [(n, 4, needs, first, st, checks) for n, (needs, first, st, checks) in T4.items()]
     rows += [(n, 5, needs, first, st, checks) for n, (needs, first, st, checks) in T5.items()]
     rows += [(n, 6, needs, first, st, checks) for n, (needs, first, st, checks) in T6.items()]
+    rows += [(n, 7, needs, first, st, checks) for n, (needs, first, st, checks) in T7.items()]
     for name, rnd, needs, first, strengthened, checks in rows:
         d = ROOT / "seeded" / name
         pid = name[:3]
